@@ -8,6 +8,7 @@
 
 double num_of_id(long id);
 cJSON *vb_build(const jv *v);                         /* well-formed tree in allocator blocks (library-owned) */
+cJSON *vb_build_flagged(const jv *v);                 /* same value as the construction API builds it with constant keys and string references: keys and string values live in caller memory */
 /* 1 if tree t denotes exactly value v (shape, order, keys, bytes, number bits / integer view) */
 int vb_equal(const jv *v, const cJSON *t, char *why, size_t wn, int depth);
 /* structural well-formedness of a tree the library returned (sibling links, types); 1 if ok */
